@@ -1,6 +1,4 @@
 import PegVerif
-import PegVerif.Proofs.Termination
-import PegVerif.Proofs.Sentinel
 import Driver.Sexp
 import Driver.HooksLib
 /-
@@ -83,13 +81,6 @@ partial def runLoop (h : IO.FS.Stream) (out : IO.FS.Stream) (cur : Option Case) 
     match parseSexp sline >>= toGrammar with
     | some g =>
       let env := mkEnv g (skip == "1") (uctx == "1")
-      -- which theorem classes the grammar falls into (hypotheses of the property theorems, decided here)
-      let noLeftrec := g.rules.all fun e => match e with | .rule r => !r.flags.leftRecursive | _ => true
-      let noMemo := g.rules.all fun e => match e with | .rule r => !r.flags.memoize && !r.flags.leftRecursive | _ => true
-      let wf := wfCheck g env.settings
-      let lrok := decide (LROk g env.settings)
-      let recFirst := RecFirst g env.settings (fun _ => 0) 20
-      out.putStrLn s!"{id}\t-1\tCLASS\tnoleftrec={noLeftrec}\tnomemo={noMemo}\twf={wf}\tlrok={lrok}\trecfirst={recFirst}"
       runLoop h out (some { id := id, env := env, fuel := fuel.toNat?.getD 10000 }) 0
     | none =>
       out.putStrLn s!"{id}\t-\tBADGRAMMAR"
